@@ -81,10 +81,15 @@ Definition push_sym (st : list pchunk * chunk) (sym : Z) : list pchunk * chunk :
   if can_add c sym then (chs, chunk_add c sym)
   else let '(p, c') := chunk_encode c in (chs ++ [p], chunk_add c' sym).
 
+(* uint16 "x++": equal to add16 x 1 (inc16_add16 in the proofs); the test avoids
+   a division on the common path when the model is executed *)
+Definition inc16 (x : Z) : Z :=
+  let y := x + 1 in if (0 <=? y) && (y <? 65536) then y else y mod 65536.
+
 (* one iteration of the not-received loop of addReceived *)
 Definition fb_fill_step (f : feedback) : feedback :=
   let '(chs, c) := push_sym (f_chunks f, f_chunk f) 0 in
-  mkFb (f_base f) (f_ref f) (f_last f) (add16 (f_next f) 1) (add16 (f_count f) 1) (f_len f) c chs (f_deltas f).
+  mkFb (f_base f) (f_ref f) (f_last f) (inc16 (f_next f)) (inc16 (f_count f)) (f_len f) c chs (f_deltas f).
 
 Fixpoint fb_fill (n : nat) (f : feedback) : feedback :=
   match n with O => f | S k => fb_fill k (fb_fill_step f) end.
@@ -105,7 +110,7 @@ Definition fb_add_received (f : feedback) (seq16 t : Z) : option feedback :=
     let sym := if small then 1 else 2 in
     let len := if small then f_len f1 + 1 else f_len f1 + 2 in
     let '(chs, c) := push_sym (f_chunks f1, f_chunk f1) sym in
-    Some (mkFb (f_base f1) (f_ref f1) (f_last f1 + rounded) (add16 (f_next f1) 1) (add16 (f_count f1) 1)
+    Some (mkFb (f_base f1) (f_ref f1) (f_last f1 + rounded) (inc16 (f_next f1)) (inc16 (f_count f1))
                len c chs (f_deltas f1 ++ [(sym, rounded)])).
 
 (* getRTCP's "for len(lastChunk.deltas) > 0 { chunks = append(chunks, encode()) }".
